@@ -105,6 +105,8 @@ def run_one(name, tests, tier):
             shutil.rmtree(os.path.join(repo, "target"), ignore_errors=True)
         env["VERIF_REPO"] = repo
         env["VERIF_CACHE"] = cache
+        env["VERIF_EVIDENCE"] = os.path.join(d, "evidence")
+        env["VERIF_REPLAY"] = os.path.join(d, "replay")
         r = subprocess.run([sys.executable, os.path.join(VERIF, "engines", "check.py"), "all", tier], cwd=VERIF, env=env, stdout=subprocess.PIPE, stderr=subprocess.STDOUT, text=True)
         fired, und, firstv = [], [], {}
         cur_v = []
